@@ -706,6 +706,13 @@ impl Actor {
             }
         };
 
+        // No further action will be processed. Close the channel and drop whatever is still
+        // queued, so that callers waiting for a reply get an error instead of waiting forever
+        // (a queued action, and the reply sender inside it, would otherwise live for as long as
+        // any `SyncHandle` does).
+        self.action_rx.close();
+        while self.action_rx.try_recv().is_ok() {}
+
         if let Err(cause) = self.store.flush() {
             warn!(?cause, "failed to flush store");
         }
